@@ -57,7 +57,7 @@ CLAIMED = {
         "ext is an arbitrary oracle consulted afresh at every atomic read (what the handles held by other threads add; a decrement that gives up the world's last reference while ext > 0 frees nothing "
         "and the buffer leaves the world); every function specification and C01_step are proved for EVERY oracle, and C04_thread_results_sequential states the consequence: from any well-formed "
         "world of a thread, for every history of its operations and every sequence of foreign contributions, the world stays well-formed, nothing undefined is reached and texts and returned "
-        "values are exactly Spec's (String's). The link (why other threads appear to a thread only through such an oracle): C04_rmw_reads_own_plus_rest / C04_load_reads_own_plus_rest - in "
+        "values are exactly Spec's (String's); conversely C04_every_value_stream_is_an_oracle - every stream of values handed to the atomic reads of a command is realised by some oracle. The link (why other threads appear to a thread only through such an oracle): C04_rmw_reads_own_plus_rest / C04_load_reads_own_plus_rest - in "
         "the protocol machine every value an RMW or a possibly stale acquire load returns to thread t is at least the number of references t holds (from J1 / J7) - and "
         "C04_typed_values_own_plus_rest - in every configuration a well-typed program reaches, the value handed to a thread's continuation by a load or RMW of the shared count is its ghost count "
         "plus a non-negative rest; together with the frame (nobody writes, moves or frees a buffer a thread holds) this is what the oracle semantics assumes. What stays an argument rather than one "
